@@ -1,7 +1,8 @@
-From FV Require Import Common.ExtractTypes Rb.RbModel Rb.RbCases.
+From FV Require Import Common.ExtractTypes Rb.RbModel Rb.RbCases Rb.RbPtr.
 From Coq Require Import NArith.
 From Coq Require Extraction.
 From Coq Require Import ExtrOcamlBasic.
 Extraction "../build/extract/rb_model.ml" types_witness
   insert remove insert_before first inorder size height layout layout_list root_id
-  insert_cases insert_before_cases remove_cases pid pless pagg N.ltb.
+  insert_cases insert_before_cases remove_cases pid pless pagg N.ltb
+  p_insert p_remove p_insert_before p_first rotateLeft rotateRight pp_empty paeqb.
